@@ -394,3 +394,7 @@ pub fn c04_state_predicates() {
     kani::cover!(true, "end");
     std::mem::forget(st);
 }
+
+pub(crate) fn set_scheduled_reset(s: &mut State, reason: Reason) {
+    s.inner = Closed(Cause::ScheduledLibraryReset(reason));
+}
